@@ -12,9 +12,10 @@ DetailedPlacement DetailedPlacement::fromIspdCircuit(const Circuit &circuit) {
   std::vector<Rectangle> obstacles;
   for (int c = 0; c < circuit.nbCells(); ++c) {
     if (circuit.cellIsFixed_[c]) {
+      // Fixed cells are handled by computeRows according to their obstruction
+      // flag
       widths[c] = -1;
-    }
-    if (circuit.cellHeight_[c] != rowHeight) {
+    } else if (circuit.cellHeight_[c] != rowHeight) {
       widths[c] = -1;
       Rectangle pl = circuit.placement(c);
       obstacles.push_back(pl);
